@@ -1,0 +1,9 @@
+//go:build !verif
+
+package rfmt
+
+// verifOn guards the tracing hooks of the verification harness (build tag
+// "verif"); with the tag off the guarded statements are dead code.
+const verifOn = false
+
+func verifPool(ev string, p *pp) {}
